@@ -6,13 +6,14 @@
 # Result is stored under /verif/seeded/<Cxx>-<n>/ . /repo itself is never touched.
 set -u
 export GOFLAGS=-mod=mod GOPROXY=off GOSUMDB=off GOTOOLCHAIN=local
+D="$(cd "$(dirname "${BASH_SOURCE[0]}")" && pwd)"
 pid="$1"; n="$2"; shift 2; extra="$@"
 src="/tmp/seed-$pid/seeded/$n"
 [ -f "$src/patch.diff" ] || { echo "$pid-$n: no patch"; exit 2; }
 out="/verif/seeded/$pid-$n"; mkdir -p "$out"
 wt="$(mktemp -d /tmp/sc-XXXXXX)"; rmdir "$wt"
 git -C /repo worktree add -q --detach "$wt" HEAD || exit 2
-cleanup() { git -C /repo worktree remove --force "$wt" 2>/dev/null; rm -rf "$wt" "/verif/bin/alt-$(echo "$wt" | tr '/' '_')" "/verif/work/alt-$(basename "$wt")"; }
+cleanup() { git -C /repo worktree remove --force "$wt" 2>/dev/null; rm -rf "$wt" "$D/bin/alt-$(echo "$wt" | tr '/' '_')" "$D/work/alt-$(basename "$wt")"; }
 trap cleanup EXIT
 res() { echo "$pid-$n: $1"; echo "$1" > "$out/REJECTED"; exit 3; }
 git -C "$wt" apply "$src/patch.diff" 2>/dev/null || res "patch does not apply"
@@ -35,7 +36,8 @@ for e in $extra; do case " $ids " in *" $e "*) ;; *) ids="$ids $e";; esac; done
 : > "$out/detection.txt"
 caught=""
 for id in $ids; do
-  o=$(VERIF_REPO="$wt" /verif/run.sh "$id" quick 2>&1); code=$?
+  o=$(VERIF_REPO="$wt" "$D/run.sh" "$id" quick 2>&1); code=$?
+  echo "$o" | grep -q BUILD-FAILED && { echo "$pid-$n: HARNESS BUILD FAILED"; exit 4; }
   nv=$(echo "$o" | grep -c '^VIOLATION')
   keys=$(echo "$o" | grep -A1 '^VIOLATION' | grep 'key=' | sed 's/^ *//' | head -4 | tr '\n' ';')
   echo "$id exit=$code violations=$nv $keys" >> "$out/detection.txt"
